@@ -1,6 +1,6 @@
 // High level formatting functions.
 
-use std::collections::HashMap;
+use std::collections::BTreeMap;
 use std::io::{self, Write};
 use std::time::{Duration, Instant};
 
@@ -371,7 +371,7 @@ impl FormattingError {
     }
 }
 
-pub(crate) type FormatErrorMap = HashMap<FileName, Vec<FormattingError>>;
+pub(crate) type FormatErrorMap = BTreeMap<FileName, Vec<FormattingError>>;
 
 #[derive(Default, Debug, PartialEq)]
 pub(crate) struct ReportedErrors {
